@@ -126,6 +126,96 @@ func splineGenOpts() GenOpts {
 		SizeModes: []string{"fixed", "fixed", "fixed", "map", "fixedmap"}, VirtualOut: []bool{false, true}, SpacingsPos: true}
 }
 
+type screened struct {
+	Outcome string // ok | panic | hang
+	Detail  string
+}
+
+// screenCases runs Layout on every case in a child process under a wall-clock limit (a goroutine that spins cannot
+// be stopped from inside the process)
+func screenCases(cases []Case, limit time.Duration, tmpDir string) []screened {
+	res := make([]screened, len(cases))
+	self, _ := os.Executable()
+	os.MkdirAll(tmpDir, 0o755)
+	var wg sync.WaitGroup
+	sem := make(chan struct{}, 8)
+	for i, c := range cases {
+		wg.Add(1)
+		sem <- struct{}{}
+		go func(i int, c Case) {
+			defer wg.Done()
+			defer func() { <-sem }()
+			f := fmt.Sprintf("%s/one_%d.json", tmpDir, i)
+			writeJSON(f, []Case{c})
+			cmd := exec.Command(self, "one", "-file", f)
+			done := make(chan error, 1)
+			var outb []byte
+			go func() {
+				var err error
+				outb, err = cmd.CombinedOutput()
+				done <- err
+			}()
+			select {
+			case err := <-done:
+				if err == nil {
+					res[i] = screened{Outcome: "ok"}
+				} else {
+					res[i] = screened{Outcome: "panic", Detail: firstLines(string(outb), 6)}
+				}
+			case <-time.After(limit):
+				cmd.Process.Kill()
+				<-done
+				res[i] = screened{Outcome: "hang", Detail: fmt.Sprintf("Layout did not return within %v", limit)}
+			}
+			os.Remove(f)
+		}(i, c)
+	}
+	wg.Wait()
+	return res
+}
+
+// OrderingNoop with every positioner and router, in child processes: the option leaves long edges unbroken, which
+// the positioners that assume a proper layering do not survive (recorded finding ordering-noop)
+func runNoopScreen(fs *flag.FlagSet, prop string, seed uint64, n int, outDir, file string) int {
+	r := NewRng(seed)
+	o := GenOpts{MaxN: 9, Kinds: connectedKinds, SelfLoops: true, MultiComp: true, P1: allP1, P2: allP2,
+		P4: []string{"sink", "valign", "packright", "ns", "bk", "bk1"}, P5: basicP5, SizeModes: allSizeModes, VirtualOut: []bool{false, true}, SpacingsPos: true}
+	var cases []Case
+	for i := 0; i < n; i++ {
+		c := genCase(r, o)
+		c.P3 = "noop"
+		if c.P4 == "ns" && len(c.Edges) > 10 {
+			c.P4 = "valign"
+		}
+		c.Name = fmt.Sprintf("noop-s%d-%d", seed, i)
+		cases = append(cases, c)
+	}
+	type entry struct {
+		Index    int      `json:"index"`
+		Case     Case     `json:"case"`
+		Outcome  string   `json:"outcome"`
+		Detail   string   `json:"detail,omitempty"`
+		LongEdge bool     `json:"long_edge"`
+		C06      []string `json:"c06,omitempty"`
+	}
+	var entries []entry
+	for i, sc := range screenCases(cases, 4*time.Second, outDir) {
+		e := entry{Index: i, Case: cases[i], Outcome: sc.Outcome, Detail: sc.Detail}
+		d := cases[i]
+		d.P3, d.P4 = "", "valign"
+		e.LongEdge = hasLongEdge(d)
+		if sc.Outcome == "ok" {
+			if out, err := runLayout(cases[i]); err == nil {
+				e.C06 = oracleC06(cases[i], out)
+			}
+		}
+		entries = append(entries, e)
+	}
+	writeJSON(outDir+"/index.json", entries)
+	fmt.Printf("noop: %d cases\n", len(entries))
+	return 0
+}
+
 func runSplineTrace(fs *flag.FlagSet, prop string, seed uint64, n int, outDir, file string) int {
 	limit := 4 * time.Second
 	r := NewRng(seed)
@@ -154,45 +244,9 @@ func runSplineTrace(fs *flag.FlagSet, prop string, seed uint64, n int, outDir, f
 	os.MkdirAll(outDir, 0o755)
 	entries := make([]splineEntry, len(cases))
 	// 1. child processes under a wall-clock limit
-	self, _ := os.Executable()
-	var wg sync.WaitGroup
-	sem := make(chan struct{}, 8)
-	for i, c := range cases {
-		wg.Add(1)
-		sem <- struct{}{}
-		go func(i int, c Case) {
-			defer wg.Done()
-			defer func() { <-sem }()
-			f := fmt.Sprintf("%s/one_%d.json", outDir, i)
-			writeJSON(f, []Case{c})
-			cmd := exec.Command(self, "one", "-file", f)
-			done := make(chan error, 1)
-			var outb []byte
-			go func() {
-				var err error
-				outb, err = cmd.CombinedOutput()
-				done <- err
-			}()
-			e := splineEntry{Index: i, Case: c, Shard: -1}
-			select {
-			case err := <-done:
-				if err == nil {
-					e.Outcome = "ok"
-				} else {
-					e.Outcome = "panic"
-					e.Detail = firstLines(string(outb), 6)
-				}
-			case <-time.After(limit):
-				cmd.Process.Kill()
-				<-done
-				e.Outcome = "hang"
-				e.Detail = fmt.Sprintf("Layout did not return within %v", limit)
-			}
-			os.Remove(f)
-			entries[i] = e
-		}(i, c)
+	for i, sc := range screenCases(cases, limit, outDir) {
+		entries[i] = splineEntry{Index: i, Case: cases[i], Shard: -1, Outcome: sc.Outcome, Detail: sc.Detail}
 	}
-	wg.Wait()
 	// 2. trace the ones that return
 	var shard, sshard strings.Builder
 	nshard, inShard := 0, 0
@@ -287,6 +341,7 @@ func runSplineTrace(fs *flag.FlagSet, prop string, seed uint64, n int, outDir, f
 
 func init() {
 	extraCommands["splinetrace"] = runSplineTrace
+	extraCommands["noopscreen"] = runNoopScreen
 	// one: Layout on the single case of a file; exit status 0 when it returns, 3 when it panics
 	extraCommands["one"] = func(fs *flag.FlagSet, prop string, seed uint64, n int, out, file string) int {
 		b, err := os.ReadFile(file)
